@@ -1,29 +1,29 @@
 INIT Init
 NEXT Next
 CONSTANTS
-  Shapes <- cShapes
+  Shapes <- cShapesAll
   SymNames <- cSyms
   NameSeq <- cNoSeq
   SensorNames <- cSensors
   ReadingNames <- cReadings
-  Ops <- cOpsRat
+  Ops <- cOpsLin
   Consts <- cConsts
-  MinGrow = 2
-  MaxGrow = 5
-  NPoints = 2
-  Vals <- cValsInt
+  MinGrow = 4
+  MaxGrow = 7
+  NPoints = 3
+  Vals <- cVals
   Dts <- cDts
   CalVals <- cCalVals
   PNoiseVals <- cPNoise
   SNoiseVals <- cSNoise
-  Ks <- cKsAll
+  Ks <- cKsNone
   PDiag <- cPDiag
   PVec <- cPVec
   ZDeltas <- cZDeltas
-  Acts <- cActsAll
-  MinSteps = 4
+  Acts <- cActsEval
+  MinSteps = 5
   MaxSteps = 8
-  RationalOnly = TRUE
+  RationalOnly = FALSE
   Twins = FALSE
   SetOnce = FALSE
   Chain = FALSE
